@@ -160,28 +160,45 @@ theorem goCeilDiv_cast (a f : Nat) (hf : 0 < f) : goCeilDiv (a : Int) (f : Int) 
   unfold goCeilDiv
   rw [if_neg (by omega), ceilDivN_cast a f hf]
 
-/-- `GiveMe(v)`: the target becomes ceil((v - reserved)+ / factor) — the model's `neededPartitions` -/
+/-- `GiveMe(v)`: the target becomes ceil((v - reserved)+ / factor) — the model's `neededPartitions` — where an unset
+factor (0: the default has not been applied yet because the resource is not provisioned) counts as 1, as in the
+model, which applies the default when the instance is created (`LInst.init`). Before the fix `59bb98c` of finding F11
+an unset factor made this a division by zero in floating point. -/
 theorem trans_C07_C09_GiveMe_v2 (r : T_v2_sharedResource) (v res f : Nat) (hr : r.reservedCapacity = res) (hfac : r.factor = f)
-    (hf : 0 < f) (hv : v < 4294967296) :
-    v2_sr_GiveMe r v = { r with target := ((ceilDivN (v - res) f : Nat) : Int) } := by
-  have hle := ceilDivN_le (v - res) f hf
+    (hv : v < 4294967296) :
+    v2_sr_GiveMe r v = { r with target := ((ceilDivN (v - res) (if f = 0 then 1 else f) : Nat) : Int) } := by
+  have hpos : 0 < (if f = 0 then 1 else f) := by split <;> omega
+  have hle := ceilDivN_le (v - res) _ hpos
   have ht : (if decide ((v : Int) ≥ r.reservedCapacity) = true then u32 ((v : Int) - r.reservedCapacity) else u32 0)
       = (((v - res : Nat)) : Int) := by
     rw [hr]; unfold u32; split <;> simp at * <;> omega
+  have hf' : (if decide (r.factor = 0) = true then u32 1 else r.factor) = (((if f = 0 then 1 else f : Nat)) : Int) := by
+    rw [hfac]; unfold u32
+    by_cases h0 : f = 0
+    · subst h0; simp
+    · have : ¬ ((f : Int) = 0) := by omega
+      simp [h0, this]
   simp only [v2_sr_GiveMe]
-  rw [ht, hfac, goCeilDiv_cast _ _ hf]
+  rw [ht, hf', goCeilDiv_cast _ _ hpos]
   congr 1
   unfold u32; omega
 
 theorem trans_C07_C09_GiveMe_v1 (r : T_v1_AzureSharedResource) (v res f : Nat) (hr : r.reservedCapacity = res) (hfac : r.factor = f)
-    (hf : 0 < f) (hv : v < 4294967296) :
-    v1_sr_GiveMe r v = { r with target := ((ceilDivN (v - res) f : Nat) : Int) } := by
-  have hle := ceilDivN_le (v - res) f hf
+    (hv : v < 4294967296) :
+    v1_sr_GiveMe r v = { r with target := ((ceilDivN (v - res) (if f = 0 then 1 else f) : Nat) : Int) } := by
+  have hpos : 0 < (if f = 0 then 1 else f) := by split <;> omega
+  have hle := ceilDivN_le (v - res) _ hpos
   have ht : (if decide ((v : Int) ≥ r.reservedCapacity) = true then u32 ((v : Int) - r.reservedCapacity) else u32 0)
       = (((v - res : Nat)) : Int) := by
     rw [hr]; unfold u32; split <;> simp at * <;> omega
+  have hf' : (if decide (r.factor = 0) = true then u32 1 else r.factor) = (((if f = 0 then 1 else f : Nat)) : Int) := by
+    rw [hfac]; unfold u32
+    by_cases h0 : f = 0
+    · subst h0; simp
+    · have : ¬ ((f : Int) = 0) := by omega
+      simp [h0, this]
   simp only [v1_sr_GiveMe]
-  rw [ht, hfac, goCeilDiv_cast _ _ hf]
+  rw [ht, hf', goCeilDiv_cast _ _ hpos]
   congr 1
   unfold u32; omega
 
